@@ -34,215 +34,12 @@ Ltac fin_lra :=
 
 Ltac op_solve := unfold angT; pyrunA; try reflexivity.
 
-(* ------------------------------------------------------------------ addition *)
+(* subset of C03_ops.v needed by C09 *)
 Lemma add_AA a ta b tb : Angle___add__ Rops (angT a ta) (angT b tb) = ang (red360 (a + b)).
 Proof. op_solve. Qed.
 Lemma add_AF a ta y : Angle___add__ Rops (angT a ta) (VFloat y) = ang (red360 (a + y)).
 Proof. op_solve. Qed.
-Lemma add_AI a ta z : Angle___add__ Rops (angT a ta) (VInt z) = ang (red360 (a + IZR z)).
-Proof. op_solve. Qed.
-Lemma radd_AF a ta y : Angle___radd__ Rops (angT a ta) (VFloat y) = ang (red360 (a + y)).
-Proof. op_solve. Qed.
-Lemma radd_AI a ta z : Angle___radd__ Rops (angT a ta) (VInt z) = ang (red360 (a + IZR z)).
-Proof. op_solve. Qed.
 Lemma iadd_AA a ta b tb : Angle___iadd__ Rops (angT a ta) (angT b tb) = ang (red360 (a + b)).
-Proof. op_solve. Qed.
-Lemma iadd_AF a ta y : Angle___iadd__ Rops (angT a ta) (VFloat y) = ang (red360 (a + y)).
-Proof. op_solve. Qed.
-Lemma iadd_AI a ta z : Angle___iadd__ Rops (angT a ta) (VInt z) = ang (red360 (a + IZR z)).
-Proof. op_solve. Qed.
-
-(* --------------------------------------------------------------- subtraction *)
-(* a - b is a.__add__(-b); for an Angle b, -b is the new Angle(-b) *)
-Lemma sub_AA a ta b tb : Angle___sub__ Rops (angT a ta) (angT b tb) = ang (red360 (a + red360 (- b))).
 Proof. op_solve. Qed.
 Lemma sub_AF a ta y : Angle___sub__ Rops (angT a ta) (VFloat y) = ang (red360 (a + - y)).
 Proof. op_solve. Qed.
-Lemma sub_AI a ta z : Angle___sub__ Rops (angT a ta) (VInt z) = ang (red360 (a + IZR (- z))).
-Proof. op_solve. Qed.
-Lemma isub_AA a ta b tb : Angle___isub__ Rops (angT a ta) (angT b tb) = ang (red360 (a + red360 (- b))).
-Proof. op_solve. Qed.
-Lemma isub_AF a ta y : Angle___isub__ Rops (angT a ta) (VFloat y) = ang (red360 (a + - y)).
-Proof. op_solve. Qed.
-Lemma isub_AI a ta z : Angle___isub__ Rops (angT a ta) (VInt z) = ang (red360 (a + IZR (- z))).
-Proof. op_solve. Qed.
-(* y - a is -(a - y) *)
-Lemma rsub_AF a ta y : Angle___rsub__ Rops (angT a ta) (VFloat y) = ang (red360 (- red360 (a + - y))).
-Proof. op_solve. Qed.
-Lemma rsub_AI a ta z : Angle___rsub__ Rops (angT a ta) (VInt z) = ang (red360 (- red360 (a + IZR (- z)))).
-Proof. op_solve. Qed.
-
-(* ------------------------------------------------------------ multiplication *)
-Lemma mul_AA a ta b tb : Angle___mul__ Rops (angT a ta) (angT b tb) = ang (red360 (a * b)).
-Proof. op_solve. Qed.
-Lemma mul_AF a ta y : Angle___mul__ Rops (angT a ta) (VFloat y) = ang (red360 (a * y)).
-Proof. op_solve. Qed.
-Lemma mul_AI a ta z : Angle___mul__ Rops (angT a ta) (VInt z) = ang (red360 (a * IZR z)).
-Proof. op_solve. Qed.
-Lemma rmul_AF a ta y : Angle___rmul__ Rops (angT a ta) (VFloat y) = ang (red360 (a * y)).
-Proof. op_solve. Qed.
-Lemma rmul_AI a ta z : Angle___rmul__ Rops (angT a ta) (VInt z) = ang (red360 (a * IZR z)).
-Proof. op_solve. Qed.
-Lemma imul_AA a ta b tb : Angle___imul__ Rops (angT a ta) (angT b tb) = ang (red360 (a * b)).
-Proof. op_solve. Qed.
-Lemma imul_AF a ta y : Angle___imul__ Rops (angT a ta) (VFloat y) = ang (red360 (a * y)).
-Proof. op_solve. Qed.
-Lemma imul_AI a ta z : Angle___imul__ Rops (angT a ta) (VInt z) = ang (red360 (a * IZR z)).
-Proof. op_solve. Qed.
-
-(* ------------------------------------------------------------------ division *)
-(* an Angle divisor counts as zero when |b| < its tolerance; a number when it is 0 *)
-Lemma div_AA a ta b tb : tb <= Rabs b -> b <> 0 ->
-  Angle___truediv__ Rops (angT a ta) (angT b tb) = ang (red360 (a / b)).
-Proof. intros H1 H2. assert (tb <= Rabs (b - 0)) by (replace (b - 0) with b by lra; lra). op_solve. Qed.
-Lemma div_AA_zero a ta b tb : Rabs b < tb ->
-  Angle___truediv__ Rops (angT a ta) (angT b tb) = VErr ZeroDivisionError.
-Proof. intros H1. assert (Rabs (b - 0) < tb) by (replace (b - 0) with b by lra; lra). op_solve. Qed.
-Lemma div_AF a ta y : y <> 0 -> Angle___truediv__ Rops (angT a ta) (VFloat y) = ang (red360 (a / y)).
-Proof. intros H. op_solve. Qed.
-Lemma div_AF_zero a ta : Angle___truediv__ Rops (angT a ta) (VFloat 0) = VErr ZeroDivisionError.
-Proof. op_solve. Qed.
-Lemma div_AI a ta z : z <> 0%Z -> Angle___truediv__ Rops (angT a ta) (VInt z) = ang (red360 (a / IZR z)).
-Proof.
-  intros H. assert (IZR z <> 0) by (intro E; apply eq_IZR in E; contradiction).
-  assert ((z =? 0)%Z = false) as Hz by (apply Z.eqb_neq; assumption).
-  destruct z as [|p|p]; [contradiction | |].
-  - op_solve.
-  - op_solve.
-Qed.
-Lemma div_AI_zero a ta : Angle___truediv__ Rops (angT a ta) (VInt 0) = VErr ZeroDivisionError.
-Proof. op_solve. Qed.
-Lemma div_old_AF a ta y : y <> 0 -> Angle___div__ Rops (angT a ta) (VFloat y) = ang (red360 (a / y)).
-Proof. intros H. op_solve. Qed.
-(* in-place *)
-Lemma idiv_AA a ta b tb : tb <= Rabs b -> b <> 0 ->
-  Angle___itruediv__ Rops (angT a ta) (angT b tb) = ang (red360 (a / b)).
-Proof. intros H1 H2. assert (tb <= Rabs (b - 0)) by (replace (b - 0) with b by lra; lra). op_solve. Qed.
-Lemma idiv_AA_zero a ta b tb : Rabs b < tb ->
-  Angle___itruediv__ Rops (angT a ta) (angT b tb) = VErr ZeroDivisionError.
-Proof. intros H1. assert (Rabs (b - 0) < tb) by (replace (b - 0) with b by lra; lra). op_solve. Qed.
-Lemma idiv_AF a ta y : y <> 0 -> Angle___itruediv__ Rops (angT a ta) (VFloat y) = ang (red360 (a / y)).
-Proof. intros H. op_solve. Qed.
-Lemma idiv_AF_zero a ta : Angle___itruediv__ Rops (angT a ta) (VFloat 0) = VErr ZeroDivisionError.
-Proof. op_solve. Qed.
-(* reflected: y / a; the Angle a counts as zero when |a| < its tolerance *)
-Lemma rdiv_AF a ta y : ta <= Rabs a -> a <> 0 ->
-  Angle___rtruediv__ Rops (angT a ta) (VFloat y) = ang (red360 (y / a)).
-Proof. intros H1 H2. assert (ta <= Rabs (a - 0)) by (replace (a - 0) with a by lra; lra). op_solve. Qed.
-Lemma rdiv_AI a ta z : ta <= Rabs a -> a <> 0 ->
-  Angle___rtruediv__ Rops (angT a ta) (VInt z) = ang (red360 (IZR z / a)).
-Proof. intros H1 H2. assert (ta <= Rabs (a - 0)) by (replace (a - 0) with a by lra; lra). op_solve. Qed.
-Lemma rdiv_AF_zero a ta y : Rabs a < ta ->
-  Angle___rtruediv__ Rops (angT a ta) (VFloat y) = VErr ZeroDivisionError.
-Proof. intros H1. assert (Rabs (a - 0) < ta) by (replace (a - 0) with a by lra; lra). op_solve. Qed.
-Lemma rdiv_AI_zero a ta z : Rabs a < ta ->
-  Angle___rtruediv__ Rops (angT a ta) (VInt z) = VErr ZeroDivisionError.
-Proof. intros H1. assert (Rabs (a - 0) < ta) by (replace (a - 0) with a by lra; lra). op_solve. Qed.
-
-(* -------------------------------------------------------------------- modulo *)
-(* documented reading: the sign of the left value times (|a| mod b) *)
-Lemma mod_AF a ta y : 0 < y ->
-  Angle___mod__ Rops (angT a ta) (VFloat y) = ang (red360 (sgn a * Rfmod (Rabs a) y)).
-Proof.
-  intros Hy. pose proof (Rabs_pos a). unfold sgn. destruct (Rle_dec 0 a).
-  - op_solve. fin_lra.
-  - op_solve. fin_lra.
-Qed.
-Lemma mod_AA a ta b tb : 0 < b ->
-  Angle___mod__ Rops (angT a ta) (angT b tb) = ang (red360 (sgn a * Rfmod (Rabs a) b)).
-Proof.
-  intros Hy. pose proof (Rabs_pos a). unfold sgn. destruct (Rle_dec 0 a).
-  - op_solve. fin_lra.
-  - op_solve. fin_lra.
-Qed.
-Lemma imod_AF a ta y : 0 < y ->
-  Angle___imod__ Rops (angT a ta) (VFloat y) = ang (red360 (sgn a * Rfmod (Rabs a) y)).
-Proof.
-  intros Hy. pose proof (Rabs_pos a). unfold sgn. destruct (Rle_dec 0 a).
-  - op_solve. fin_lra.
-  - op_solve. fin_lra.
-Qed.
-Lemma imod_AA a ta b tb : 0 < b ->
-  Angle___imod__ Rops (angT a ta) (angT b tb) = ang (red360 (sgn a * Rfmod (Rabs a) b)).
-Proof.
-  intros Hy. pose proof (Rabs_pos a). unfold sgn. destruct (Rle_dec 0 a).
-  - op_solve. fin_lra.
-  - op_solve. fin_lra.
-Qed.
-Lemma mod_AF_zero a ta : Angle___mod__ Rops (angT a ta) (VFloat 0) = VErr ZeroDivisionError.
-Proof. destruct (Rle_dec 0 a). - op_solve. - op_solve. Qed.
-Lemma mod_AI a ta p :
-  Angle___mod__ Rops (angT a ta) (VInt (Z.pos p)) = ang (red360 (sgn a * Rfmod (Rabs a) (IZR (Z.pos p)))).
-Proof.
-  pose proof (Rabs_pos a). assert (0 < IZR (Z.pos p)) by (apply IZR_lt; lia).
-  unfold sgn. destruct (Rle_dec 0 a).
-  - op_solve. fin_lra.
-  - op_solve. fin_lra.
-Qed.
-(* reflected: the number is first converted to an Angle (i.e. reduced), then as above *)
-Lemma rmod_AF a ta y : 0 < a ->
-  Angle___rmod__ Rops (angT a ta) (VFloat y) = ang (red360 (sgn (red360 y) * Rfmod (Rabs (red360 y)) a)).
-Proof.
-  intros Ha. pose proof (Rabs_pos (red360 y)). unfold sgn. destruct (Rle_dec 0 (red360 y)).
-  - op_solve. fin_lra.
-  - op_solve. fin_lra.
-Qed.
-Lemma rmod_AI a ta z : 0 < a ->
-  Angle___rmod__ Rops (angT a ta) (VInt z) =
-  ang (red360 (sgn (red360 (IZR z)) * Rfmod (Rabs (red360 (IZR z))) a)).
-Proof.
-  intros Ha. pose proof (Rabs_pos (red360 (IZR z))). unfold sgn. destruct (Rle_dec 0 (red360 (IZR z))).
-  - op_solve. fin_lra.
-  - op_solve. fin_lra.
-Qed.
-
-(* --------------------------------------------------------------------- power *)
-(* positive base: a ** y is the real power (1 for y = 0); the result is reduced like any other *)
-Lemma pow_AF a ta y : 0 < a -> y <> 0 ->
-  Angle___pow__ Rops (angT a ta) (VFloat y) = ang (red360 (Rpower a y)).
-Proof. intros Ha Hy. unfold angT. pyrunA. unfold Rpow. destruct (Rlt_dec 0 a); [reflexivity | lra]. Qed.
-Lemma pow_AA a ta b tb : 0 < a -> b <> 0 ->
-  Angle___pow__ Rops (angT a ta) (angT b tb) = ang (red360 (Rpower a b)).
-Proof. intros Ha Hy. unfold angT. pyrunA. unfold Rpow. destruct (Rlt_dec 0 a); [reflexivity | lra]. Qed.
-Lemma pow_AF_zero_exp a ta : Angle___pow__ Rops (angT a ta) (VFloat 0) = ang (red360 1).
-Proof. op_solve. Qed.
-Lemma ipow_AF a ta y : 0 < a -> y <> 0 ->
-  Angle___ipow__ Rops (angT a ta) (VFloat y) = ang (red360 (Rpower a y)).
-Proof. intros Ha Hy. unfold angT. pyrunA. unfold Rpow. destruct (Rlt_dec 0 a); [reflexivity | lra]. Qed.
-Lemma rpow_AF a ta y : 0 < y -> a <> 0 ->
-  Angle___rpow__ Rops (angT a ta) (VFloat y) = ang (red360 (Rpower y a)).
-Proof. intros Ha Hy. unfold angT. pyrunA. unfold Rpow. destruct (Rlt_dec 0 y); [reflexivity | lra]. Qed.
-
-(* --------------------------------------------------------------------- unary *)
-Lemma neg_A a ta : Angle___neg__ Rops (angT a ta) = ang (red360 (- a)).
-Proof. op_solve. Qed.
-Lemma abs_A a ta : Angle___abs__ Rops (angT a ta) = ang (red360 (Rabs a)).
-Proof. op_solve. Qed.
-Lemma round_A a ta n : Angle___round__ Rops (angT a ta) (VInt n) = ang (red360 (Rround_nd a n)).
-Proof. op_solve. Qed.
-
-(* --------------------------------------------------------------- comparisons *)
-Lemma lt_AA a ta b tb : Angle___lt__ Rops (angT a ta) (angT b tb) = VBool (Rltb a b).
-Proof. op_solve. Qed.
-Lemma lt_AF a ta y : Angle___lt__ Rops (angT a ta) (VFloat y) = VBool (Rltb a y).
-Proof. op_solve. Qed.
-Lemma gt_AA a ta b tb : Angle___gt__ Rops (angT a ta) (angT b tb) = VBool (Rltb b a).
-Proof. op_solve. Qed.
-Lemma gt_AF a ta y : Angle___gt__ Rops (angT a ta) (VFloat y) = VBool (Rltb y a).
-Proof. op_solve. Qed.
-Ltac cmp_fin :=
-  unfold angT; pyrunA;
-  first [ reflexivity
-        | rewrite (proj2 (Rltb_true _ _)) by lra; reflexivity
-        | rewrite (proj2 (Rltb_false _ _)) by lra; reflexivity ].
-Lemma ge_AA a ta b tb : Angle___ge__ Rops (angT a ta) (angT b tb) = VBool (negb (Rltb a b)).
-Proof. destruct (Rlt_dec a b). - cmp_fin. - cmp_fin. Qed.
-Lemma le_AA a ta b tb : Angle___le__ Rops (angT a ta) (angT b tb) = VBool (negb (Rltb b a)).
-Proof. destruct (Rlt_dec b a). - cmp_fin. - cmp_fin. Qed.
-(* equality: within the tolerance of the left operand *)
-Lemma eq_AA a ta b tb : Angle___eq__ Rops (angT a ta) (angT b tb) = VBool (Rltb (Rabs (a - b)) ta).
-Proof. op_solve. Qed.
-Lemma eq_AF a ta y : Angle___eq__ Rops (angT a ta) (VFloat y) = VBool (Rltb (Rabs (a - y)) ta).
-Proof. op_solve. Qed.
-Lemma ne_AA a ta b tb : Angle___ne__ Rops (angT a ta) (angT b tb) = VBool (negb (Rltb (Rabs (a - b)) ta)).
-Proof. destruct (Rlt_dec (Rabs (a - b)) ta). - cmp_fin. - cmp_fin. Qed.
